@@ -7,8 +7,10 @@ SPEC = {
         {"name": "TestLocals", "quick": 1600, "thorough": 64000, "shards_quick": 8, "shards_thorough": 16, "timeout": 2400},
         {"name": "TestKnownWitness", "quick": 1, "thorough": 1, "shards": 1, "timeout": 120},
     ],
-    "rule": ("rapid-generated scenario descriptions (internal/scengen): HTTP (60%) or gRPC (40%); 0-3 variable sources (file/csv with "
-             "optional fields / ignore_first_line / delimiter, file/json, variables incl. randomisation-function values); 1-4 requests "
+    "rule": ("rapid-generated scenario descriptions (internal/scengen; structural choices are drawn bit by bit from rapid.Bool, so they are "
+             "uniform rather than biased to small values): HTTP (60%) or gRPC (40%); 0-3 variable sources (file/csv with "
+             "optional fields / ignore_first_line / delimiter, file/json, variables incl. randomisation-function values and bare "
+             "number / boolean values); 1-4 requests "
              "(method, uri, optional headers / tag / body / preprocessor / templater text|html, 0-4 postprocessors var/jsonpath, "
              "var/xpath, var/header, assert/response with optional headers / body / status_code / size{val?, op}) or calls (call, "
              "payload, optional tag / metadata, 0-2 prepare preprocessors, 0-2 assert/response postprocessors with optional payload / "
@@ -20,16 +22,20 @@ SPEC = {
              "never a complete ${...}. The description is rendered to x.hcl with hclwrite (block types in a drawn order; bodies / "
              "payloads optionally as heredocs) and to x.yaml with yaml.v2 (ordered maps; empty sections optionally written as []). "
              "TestLocals additionally writes 1-3 `locals` blocks (later ones refer to earlier ones; a local may be re-declared with "
-             "the same value) and ~40% of the map / list / string attributes as expressions over local.* references, the 17 "
-             "documented functions and quoted templates with ${} interpolation; the YAML file holds the value scengen's own evaluator "
-             "computes; scenario `requests` lists are wrapped by value-preserving constructions (concat, reverse, slice, flatten, "
-             "compact, distinct, coalescelist, values(zipmap()), split, a local). "
+             "the same value) and ~40% of the map / list / string attributes as expressions (depth <= 3) over local.* references, the 17 "
+             "documented functions and quoted templates with ${} interpolation, built so that the documented preconditions hold "
+             "(element on a non-empty list, slice within bounds, zipmap with equally long lists, index of a present item, split with "
+             "a non-empty separator); the YAML file holds the value scengen's own evaluator computes; 60% of the scenario `requests` "
+             "lists are wrapped by value-preserving constructions (concat, reverse, slice, flatten, compact, distinct, coalescelist, "
+             "values(zipmap()), split, a local). While a finding is listed as known, descriptions of exactly its shape are redrawn "
+             "(counted in excluded_known): a map key `<<`; a call of index(); a bare number / boolean in a `variables` source. "
              "Non-trivial = at least one optional field left out and at least one present, or a string of a special class, or an "
              "HCL-only expression; distinct = hash of the whole description."),
     "floors": {
         "TestEquivalence/kind_http": 0.4, "TestEquivalence/kind_grpc": 0.25,
         "TestEquivalence/source_file_csv": 0.3, "TestEquivalence/source_file_json": 0.15, "TestEquivalence/source_variables": 0.3,
-        "TestEquivalence/variables_rand_func": 0.03,
+        "TestEquivalence/variables_rand_func": 0.03, "TestEquivalence/body_absent": 0.2, "TestEquivalence/sources_none": 0.1,
+        "TestEquivalence/yaml_empty_sections": 0.15,
         "TestEquivalence/post_var_jsonpath": 0.1, "TestEquivalence/post_var_xpath": 0.1, "TestEquivalence/post_var_header": 0.1,
         "TestEquivalence/post_assert_response": 0.15, "TestEquivalence/post_assert_size": 0.05,
         "TestEquivalence/pre_http": 0.2, "TestEquivalence/templater_text": 0.1, "TestEquivalence/templater_html": 0.1,
@@ -64,8 +70,12 @@ SPEC = {
         "note": ("Values produced by randomisation functions in `variables` sources are masked (they are random by design). The HCL "
                  "`headers` argument is required by the HCL front-end, so a request without headers is written `headers = {}` there "
                  "and left out in YAML. coalesce() is only called with null or non-empty arguments (the linked documentation and the "
-                 "implementation differ on empty strings). Listed findings are steered around by redrawing and re-confirmed by fixed "
-                 "witnesses in TestKnownWitness. The native byte-mutation campaign of the design is not implemented."),
+                 "implementation differ on empty strings). Three findings (a map key `<<` is unreadable after the HCL -> YAML text hop; "
+                 "`index` is bound to element access instead of the documented search; bare numbers / booleans in a `variables` "
+                 "source become strings in HCL only) are steered around by redrawing while listed as known and re-confirmed by fixed "
+                 "witnesses in TestKnownWitness (which also runs the documentation's own HCL / YAML example); while index() is "
+                 "excluded no generated case calls it. The native byte-mutation campaign of the design, YAML anchors / the YAML "
+                 "`locals` helper block and HCL comment / CRLF layouts are not implemented."),
     },
     "assumptions": [
         "strings are NFC-normalised: HCL normalises string values to NFC by specification, so other strings are not expressible in both syntaxes",
